@@ -5,7 +5,7 @@
    the equalities also carry the timing clause of the property.
    Machines: Ops/Elementwise.v (tied to the code by the K2 correspondence). *)
 From RxVerif Require Import Base.Prelude Ops.Machine Ops.MachineFacts Ops.Elementwise
-  Ops.ElementwiseFacts.
+  Ops.ElementwiseFacts Ops.ElementwiseMore.
 
 Theorem C05_map : forall A B (f : A -> B) xs t,
   exec (op_map (pure f)) (events xs t) = nexts (indexed 1 (map f xs)) ++ tterm (S (length xs)) t.
@@ -185,4 +185,54 @@ Example C05_witness_take :
 Proof. vm_compute. reflexivity. Qed.
 Example C05_witness_skip_last_none_like :
   untag (exec (op_skip_last 1) (events [0; 7; 8] TDone)) = [Next 0; Next 7; Done].
+Proof. vm_compute. reflexivity. Qed.
+
+(* ---- additions: dematerialize (direct), take_while_indexed, skip_while_indexed, starmap, pluck ---- *)
+(* the elements are notifications: OnNext passes, the first OnError / OnCompleted ELEMENT ends the output
+   at its own position (what follows it is dropped), otherwise the source's own terminal does *)
+Theorem C05_dematerialize : forall A (ns : list (ev A)) t,
+  exec op_dematerialize (events ns t) = demat_list 1 ns t.
+Proof. exact @dematerialize_spec. Qed.
+Print Assumptions C05_dematerialize.
+
+Theorem C05_take_while_indexed : forall A (p : A -> nat -> bool) inclusive (xs : list A) t,
+  exec (op_take_while_indexed (pure2 p) inclusive) (events xs t)
+  = nexts (takewhile_i p 0 (indexed 1 xs)) ++
+    match first_failing_i p 0 (indexed 1 xs) with
+    | Some (j, x) => (if inclusive then [(j, Next x)] else []) ++ [(j, Done)]
+    | None => tterm (S (length xs)) t
+    end.
+Proof. exact @take_while_indexed_spec. Qed.
+Print Assumptions C05_take_while_indexed.
+
+(* skip_while_indexed as the code composes it: map_indexed(pair) ; skip_while ; map(first) *)
+Theorem C05_skip_while_indexed : forall A (p : A -> nat -> bool) (xs : list A) t,
+  untag (exec (op_skip_while_indexed (pure2 p)) (events xs t)) = events (dropwhile_i p 0 xs) t.
+Proof. exact @skip_while_indexed_spec. Qed.
+Print Assumptions C05_skip_while_indexed.
+
+(* starmap(f) / pluck(key) are the maps the code builds: map(lambda values: f( *values)), map(lambda x: x[key]) *)
+Theorem C05_starmap : forall A B C (f : A -> B -> C) (xs : list (A * B)) t,
+  exec (op_starmap (pure2 f)) (events xs t)
+  = nexts (indexed 1 (map (fun ab => f (fst ab) (snd ab)) xs)) ++ tterm (S (length xs)) t.
+Proof. exact @starmap_spec. Qed.
+Print Assumptions C05_starmap.
+Theorem C05_pluck : forall A B keq (key : A) exn (ds : list (list (A * B))) (vs : list B) t,
+  Forall2 (fun d v => lookup keq key exn d = Ok v) ds vs ->
+  untag (exec (op_pluck keq key exn) (events ds t)) = events vs t.
+Proof. exact @pluck_spec. Qed.
+Print Assumptions C05_pluck.
+Theorem C05_pluck_missing_key : forall A B keq (key : A) exn (ds : list (list (A * B))) (vs : list B) d rest t,
+  Forall2 (fun d v => lookup keq key exn d = Ok v) ds vs -> lookup keq key exn d = Raise exn ->
+  untag (exec (op_pluck keq key exn) (events (ds ++ d :: rest) t)) = map Next vs ++ [Err exn].
+Proof. exact @pluck_missing. Qed.
+Print Assumptions C05_pluck_missing_key.
+
+Example C05_witness_dematerialize :
+  exec op_dematerialize (events [Next 1; Next 2; Done; Next 3] (TErr 9))
+  = [(1%nat, Next 1); (2%nat, Next 2); (3%nat, Done)].
+Proof. vm_compute. reflexivity. Qed.
+Example C05_witness_pluck :
+  untag (exec (op_pluck Z.eqb 0 (-5)) (events [[(0, 7)]; [(1, 8); (0, 9)]; [(1, 3)]; [(0, 4)]] TDone))
+  = [Next 7; Next 9; Err (-5)].
 Proof. vm_compute. reflexivity. Qed.
